@@ -2334,3 +2334,436 @@ async fn apistore_replay() {
         }
     }
 }
+
+// ------------------------------------------------------------------------------------------------
+// C19 session half: behaviours of spec/BmpSession/BmpSession.tla on the real BmpClient::serve, with real BGP sessions
+// (accept_connection + PeerSession::run against the scripted Remote) and a "station" socket whose bytes are read by the
+// independent reader and folded the way a monitoring station folds them.
+//
+// Input (VERIF_IN): "seq <id>" starts a fresh world; ops: establish <p> | drop <p> | announce <p> <x> | withdraw <p> <x> |
+// connect | disconnect.   Output (VERIF_OUT): per op the station's folded state, the RIB, the Peer Up / Peer Down messages
+// seen during the step and a list of anomalies (malformed records, OPENs that are not the ones exchanged, events for peers
+// the station was not told about).
+// ------------------------------------------------------------------------------------------------
+#[allow(dead_code)]
+mod bmp_reader {
+    include!(concat!(env!("OSRG_RUSTYBGP_VERIF_DIR"), "/../common/monitor_reader.rs"));
+}
+
+struct BsPeer {
+    remote: Remote,
+    task: tokio::task::JoinHandle<()>,
+    /// the OPEN the scripted speaker sent (as number, router id, hold time)
+    sent: (u32, u32, u16),
+}
+
+struct BsWorld {
+    global: GlobalHandle,
+    tables: TableHandle,
+    active_tx: mpsc::UnboundedSender<TcpStream>,
+    _active_rx: mpsc::UnboundedReceiver<TcpStream>,
+    peers: FnvHashMap<String, BsPeer>,
+    station: Option<(TcpStream, tokio_util::sync::CancellationToken, tokio::task::JoinHandle<()>)>,
+    buf: Vec<u8>,
+    known: std::collections::BTreeSet<String>,
+    mirror: std::collections::BTreeMap<String, std::collections::BTreeSet<String>>,
+    mirror_post: std::collections::BTreeMap<String, std::collections::BTreeSet<String>>,
+}
+
+fn bs_addr(p: &str) -> Ipv4Addr {
+    match p {
+        "a" => Ipv4Addr::new(127, 0, 0, 1),
+        "b" => Ipv4Addr::new(127, 0, 0, 2),
+        x => panic!("harness: peer {x}"),
+    }
+}
+
+fn bs_name(a: &[u8; 16]) -> String {
+    match a[15] {
+        1 if a[12] == 127 => "a".into(),
+        2 if a[12] == 127 => "b".into(),
+        _ => format!("?{:?}", &a[12..]),
+    }
+}
+
+fn bs_asn(p: &str) -> u32 {
+    if p == "a" { 65002 } else { 4_200_000_003 }
+}
+
+fn bs_pfx(x: &str) -> packet::Nlri {
+    match x {
+        "x" => packet::Nlri::V4(bgp::Ipv4Net { addr: Ipv4Addr::new(198, 51, 100, 0), mask: 24 }),
+        "y" => packet::Nlri::V4(bgp::Ipv4Net { addr: Ipv4Addr::new(203, 0, 113, 128), mask: 25 }),
+        z => panic!("harness: prefix {z}"),
+    }
+}
+
+fn bs_pfx_name(n: &packet::Nlri) -> String {
+    for x in ["x", "y"] {
+        if &bs_pfx(x) == n {
+            return x.to_string();
+        }
+    }
+    format!("?{n}")
+}
+
+impl BsWorld {
+    async fn new() -> Self {
+        let global = mk_global();
+        let tables: TableHandle = Arc::new(TableManager::new(2));
+        for p in ["a", "b"] {
+            let mut prm = base_params(IpAddr::V4(bs_addr(p)));
+            prm.families.insert(Family::IPV4, 0);
+            global.write().await.add_peer(prm, None).unwrap();
+        }
+        let (active_tx, _active_rx) = mpsc::unbounded_channel();
+        BsWorld {
+            global,
+            tables,
+            active_tx,
+            _active_rx,
+            peers: FnvHashMap::default(),
+            station: None,
+            buf: Vec::new(),
+            known: Default::default(),
+            mirror: Default::default(),
+            mirror_post: Default::default(),
+        }
+    }
+
+    fn rib(&self, p: &str) -> Vec<String> {
+        let mut v: Vec<String> = self
+            .tables
+            .collect_paths(table::TableQuery::AdjIn(IpAddr::V4(bs_addr(p))), Family::IPV4, vec![], true)
+            .iter()
+            .map(|d| bs_pfx_name(&d.net))
+            .collect();
+        v.sort();
+        v
+    }
+
+    /// Read what the station socket has until it stays quiet, fold it, and report anomalies.
+    async fn drain_station(&mut self, ups: &mut Vec<String>, downs: &mut Vec<String>, anomalies: &mut Vec<String>) {
+        let Some((sock, _, _)) = self.station.as_mut() else { return };
+        let mut quiet = 0;
+        while quiet < 3 {
+            let mut tmp = [0u8; 65536];
+            match tokio::time::timeout(Duration::from_millis(12), sock.read(&mut tmp)).await {
+                Ok(Ok(0)) | Ok(Err(_)) => break,
+                Ok(Ok(n)) => {
+                    self.buf.extend_from_slice(&tmp[..n]);
+                    quiet = 0;
+                }
+                Err(_) => quiet += 1,
+            }
+        }
+        loop {
+            if self.buf.len() < 6 {
+                break;
+            }
+            let len = u32::from_be_bytes([self.buf[1], self.buf[2], self.buf[3], self.buf[4]]) as usize;
+            if self.buf[0] != 3 || len < 6 {
+                anomalies.push(format!("stream: not a BMP common header (version {}, length {})", self.buf[0], len));
+                self.buf.clear();
+                break;
+            }
+            if self.buf.len() < len {
+                break; // the rest has not arrived yet
+            }
+            let raw: Vec<u8> = self.buf.drain(..len).collect();
+            let r = match bmp_reader::read_bmp(&raw) {
+                Ok(r) => r,
+                Err(e) => {
+                    anomalies.push(format!("record: {e}"));
+                    continue;
+                }
+            };
+            if matches!(r.typ, 0 | 2 | 3) {
+                let v = r.flags & 0x80 != 0;
+                let v4_shape = r.addr[..12].iter().all(|x| *x == 0);
+                if r.peer_type == 0 && (v || !v4_shape) {
+                    anomalies.push("per-peer header: V flag / address shape wrong for an IPv4 peer".into());
+                }
+            }
+            let who = bs_name(&r.addr);
+            match r.typ {
+                4 => {}
+                3 => {
+                    ups.push(who.clone());
+                    if !self.known.insert(who.clone()) {
+                        anomalies.push(format!("second Peer Up for {who} without a Peer Down"));
+                    }
+                    self.mirror.entry(who.clone()).or_default().clear();
+                    self.mirror_post.entry(who.clone()).or_default().clear();
+                    // the two OPENs: sent by the daemon, received from the peer
+                    if r.body.len() < 20 {
+                        anomalies.push("Peer Up body truncated".into());
+                        continue;
+                    }
+                    let (pdus, _) = bmp_reader::split_pdus(&r.body[20..]);
+                    if pdus.len() < 2 || pdus[0][18] != 1 || pdus[1][18] != 1 {
+                        anomalies.push("Peer Up does not hold two OPEN messages".into());
+                        continue;
+                    }
+                    let mut opens = Vec::new();
+                    for pdu in pdus.iter().take(2) {
+                        let mut b = bytes::BytesMut::from(&pdu[..]);
+                        match bgp::PeerCodec::new().try_parse(&mut b) {
+                            Ok(Some(parsed)) => match bgp::validate_message(parsed, true) {
+                                Ok(mut it) => {
+                                    if let Some(bgp::Message::Open(o)) = it.next() {
+                                        opens.push((o.as_number, o.router_id, o.holdtime.seconds()));
+                                    }
+                                }
+                                Err(_) => anomalies.push("an OPEN of a Peer Up fails validation".into()),
+                            },
+                            _ => anomalies.push("an OPEN of a Peer Up does not parse".into()),
+                        }
+                    }
+                    if let (2, Some(bp)) = (opens.len(), self.peers.get(&who)) {
+                        let d = bp.remote.daemon_open.as_ref().map(|o| (o.as_number, o.router_id, o.holdtime.seconds()));
+                        if Some(opens[0]) != d {
+                            anomalies.push(format!(
+                                "Peer Up for {who}: Sent OPEN says (as, id, hold) {:?}, the daemon's OPEN on the wire said {:?}",
+                                opens[0], d
+                            ));
+                        }
+                        if opens[1] != bp.sent {
+                            anomalies.push(format!("Peer Up for {who}: Received OPEN says {:?}, the peer sent {:?}", opens[1], bp.sent));
+                        }
+                        if r.asn != bs_asn(&who) {
+                            anomalies.push(format!("Peer Up for {who}: per-peer header AS {}", r.asn));
+                        }
+                    }
+                }
+                2 => {
+                    downs.push(who.clone());
+                    if !self.known.remove(&who) {
+                        anomalies.push(format!("Peer Down for {who} whose Peer Up was not sent on this stream"));
+                    }
+                    self.mirror.remove(&who);
+                    self.mirror_post.remove(&who);
+                    if r.body.is_empty() || !(1..=5).contains(&r.body[0]) {
+                        anomalies.push("Peer Down without a valid reason".into());
+                    }
+                }
+                0 => {
+                    if r.peer_type != 0 || r.flags & 0x10 != 0 {
+                        continue; // Loc-RIB / Adj-RIB-Out views are not folded here
+                    }
+                    if !self.known.contains(&who) {
+                        anomalies.push(format!("Route Monitoring for {who} whose Peer Up was not sent on this stream"));
+                    }
+                    let (pdus, left) = bmp_reader::split_pdus(&r.body);
+                    if pdus.len() != 1 || left {
+                        anomalies.push(format!("Route Monitoring holds {} BGP messages", pdus.len()));
+                    }
+                    let post = r.flags & 0x40 != 0;
+                    for pdu in pdus {
+                        let mut b = bytes::BytesMut::from(&pdu[..]);
+                        let caps = [packet::Capability::MultiProtocol(Family::IPV4), packet::Capability::FourOctetAsNumber(65001)];
+                        let parsed = match bgp::PeerCodec::negotiate(&caps, &caps).try_parse(&mut b) {
+                            Ok(Some(x)) => x,
+                            _ => {
+                                anomalies.push(format!("an UPDATE of a Route Monitoring message does not parse: {:02x?}", &pdu[..pdu.len().min(80)]));
+                                continue;
+                            }
+                        };
+                        let Ok(msgs) = bgp::validate_message(parsed, false) else {
+                            anomalies.push("an UPDATE of a Route Monitoring message fails validation".into());
+                            continue;
+                        };
+                        let m = if post { self.mirror_post.entry(who.clone()).or_default() } else { self.mirror.entry(who.clone()).or_default() };
+                        for msg in msgs {
+                            match msg {
+                                bgp::Message::Update(bgp::Update::Reach { entries, .. }) => {
+                                    for e in entries {
+                                        m.insert(bs_pfx_name(&e.nlri));
+                                    }
+                                }
+                                bgp::Message::Update(bgp::Update::Unreach { entries, .. }) => {
+                                    for e in entries {
+                                        m.remove(&bs_pfx_name(&e.nlri));
+                                    }
+                                }
+                                _ => {}
+                            }
+                        }
+                    }
+                }
+                t => anomalies.push(format!("unexpected BMP message type {t}")),
+            }
+        }
+    }
+
+    async fn op(&mut self, t: &[&str], anomalies: &mut Vec<String>) {
+        match t[0] {
+            "establish" => {
+                let p = t[1];
+                let (client, server) = pair_from(bs_addr(p)).await;
+                let Some(s) = accept_connection(&self.global, &self.tables, server, crate::fsm::Role::Passive).await else {
+                    anomalies.push("harness: accept_connection refused".into());
+                    return;
+                };
+                let g = self.global.clone();
+                let tx = self.active_tx.clone();
+                let task = tokio::spawn(async move { s.run(g, tx).await });
+                let mut r = Remote::new(client, bs_asn(p));
+                if !r.read_open().await {
+                    anomalies.push("harness: no OPEN from daemon".into());
+                }
+                let rid = u32::from(Ipv4Addr::new(10, 0, 0, if p == "a" { 2 } else { 3 }));
+                let hold = if p == "a" { 90 } else { 30 };
+                let caps = vec![packet::Capability::MultiProtocol(Family::IPV4), packet::Capability::FourOctetAsNumber(bs_asn(p))];
+                if !r.open_exchange(rid, hold, caps).await {
+                    anomalies.push("harness: OPEN exchange failed".into());
+                }
+                // initial dump of the daemon ends with End-of-RIB
+                loop {
+                    match r.recv(WAIT_MS).await {
+                        Some(bgp::Message::Update(bgp::Update::EndOfRib(_))) => break,
+                        Some(_) => {}
+                        None => {
+                            anomalies.push("harness: no End-of-RIB from daemon".into());
+                            break;
+                        }
+                    }
+                }
+                self.peers.insert(p.to_string(), BsPeer { remote: r, task, sent: (bs_asn(p), rid, hold) });
+            }
+            "drop" => {
+                if let Some(mut bp) = self.peers.remove(t[1]) {
+                    bp.remote.close();
+                    if tokio::time::timeout(Duration::from_millis(WAIT_MS), bp.task).await.is_err() {
+                        anomalies.push("harness: session task did not end".into());
+                    }
+                }
+            }
+            "announce" | "withdraw" => {
+                let p = t[1].to_string();
+                let n = bs_pfx(t[2]);
+                let ann = t[0] == "announce";
+                let asn = bs_asn(&p);
+                let Some(bp) = self.peers.get_mut(&p) else { return };
+                let msg = if ann {
+                    let mut asp = vec![2u8, 1];
+                    asp.extend_from_slice(&asn.to_be_bytes());
+                    bgp::Message::Update(bgp::Update::Reach {
+                        family: Family::IPV4,
+                        entries: vec![packet::PathNlri { path_id: 0, nlri: n.clone() }],
+                        nexthop: Some(bgp::Nexthop::V4(bs_addr(&p))),
+                        attr: Arc::new(vec![
+                            packet::Attribute::new_with_value(packet::Attribute::ORIGIN, 0).unwrap(),
+                            packet::Attribute::new_with_bin(packet::Attribute::AS_PATH, asp).unwrap(),
+                        ]),
+                    })
+                } else {
+                    bgp::Message::Update(bgp::Update::Unreach { family: Family::IPV4, entries: vec![packet::PathNlri { path_id: 0, nlri: n.clone() }] })
+                };
+                bp.remote.send(&msg).await;
+                let tables = self.tables.clone();
+                let addr = IpAddr::V4(bs_addr(&p));
+                let ok = wait_until(
+                    || tables.collect_paths(table::TableQuery::AdjIn(addr), Family::IPV4, vec![], true).iter().any(|d| d.net == n) == ann,
+                    WAIT_MS,
+                )
+                .await;
+                if !ok {
+                    anomalies.push("harness: the RIB did not follow the UPDATE".into());
+                }
+            }
+            "connect" => {
+                let (client, server) = pair_from(Ipv4Addr::new(127, 0, 0, 9)).await;
+                let cancel = tokio_util::sync::CancellationToken::new();
+                let h = crate::bmp::verif_harness::serve_for_test(client, cancel.clone(), self.global.clone(), self.tables.clone(), "both");
+                self.station = Some((server, cancel, h));
+                self.buf.clear();
+                self.known.clear();
+                self.mirror.clear();
+                self.mirror_post.clear();
+            }
+            "disconnect" => {
+                if let Some((sock, cancel, h)) = self.station.take() {
+                    cancel.cancel();
+                    drop(sock);
+                    let _ = tokio::time::timeout(Duration::from_millis(WAIT_MS), h).await;
+                }
+                self.buf.clear();
+                self.known.clear();
+                self.mirror.clear();
+                self.mirror_post.clear();
+            }
+            x => panic!("harness: op {x}"),
+        }
+    }
+
+    async fn close(&mut self) {
+        if let Some((sock, cancel, h)) = self.station.take() {
+            cancel.cancel();
+            drop(sock);
+            let _ = tokio::time::timeout(Duration::from_millis(WAIT_MS), h).await;
+        }
+        let names: Vec<String> = self.peers.keys().cloned().collect();
+        for n in names {
+            if let Some(mut bp) = self.peers.remove(&n) {
+                bp.remote.close();
+                let _ = tokio::time::timeout(Duration::from_millis(WAIT_MS), bp.task).await;
+            }
+        }
+    }
+}
+
+#[tokio::test]
+async fn bmpsession_replay() {
+    let inp = std::env::var("VERIF_IN").expect("VERIF_IN");
+    let outp = std::env::var("VERIF_OUT").expect("VERIF_OUT");
+    let mut out = std::io::BufWriter::new(std::fs::File::create(outp).unwrap());
+    let text = std::fs::read_to_string(inp).unwrap();
+    let mut w: Option<BsWorld> = None;
+    for line in text.lines() {
+        let t: Vec<&str> = line.split_whitespace().collect();
+        if t.is_empty() {
+            continue;
+        }
+        if t[0] == "seq" {
+            if let Some(mut old) = w.take() {
+                old.close().await;
+            }
+            w = Some(BsWorld::new().await);
+            writeln!(out, "{{\"seq\":{}}}", t[1]).unwrap();
+            continue;
+        }
+        let world = w.as_mut().unwrap();
+        let mut anomalies = Vec::new();
+        let mut ups = Vec::new();
+        let mut downs = Vec::new();
+        world.op(&t, &mut anomalies).await;
+        settle().await;
+        world.drain_station(&mut ups, &mut downs, &mut anomalies).await;
+        ups.sort();
+        downs.sort();
+        let q = |v: &Vec<String>| v.iter().map(|s| format!("\"{}\"", s.replace('"', "'"))).collect::<Vec<_>>().join(",");
+        let set = |m: &std::collections::BTreeMap<String, std::collections::BTreeSet<String>>, p: &str| {
+            m.get(p).map(|s| s.iter().cloned().collect::<Vec<_>>()).unwrap_or_default()
+        };
+        let known: Vec<String> = world.known.iter().cloned().collect();
+        writeln!(
+            out,
+            "{{\"known\":[{}],\"mirror\":{{\"a\":[{}],\"b\":[{}]}},\"mirror_post\":{{\"a\":[{}],\"b\":[{}]}},\"rib\":{{\"a\":[{}],\"b\":[{}]}},\"ups\":[{}],\"downs\":[{}],\"anomalies\":[{}]}}",
+            q(&known),
+            q(&set(&world.mirror, "a")),
+            q(&set(&world.mirror, "b")),
+            q(&set(&world.mirror_post, "a")),
+            q(&set(&world.mirror_post, "b")),
+            q(&world.rib("a")),
+            q(&world.rib("b")),
+            q(&ups),
+            q(&downs),
+            q(&anomalies)
+        )
+        .unwrap();
+    }
+    if let Some(mut old) = w.take() {
+        old.close().await;
+    }
+}
